@@ -33,6 +33,75 @@ PAYLOAD = {
 }
 
 
+YAML_PAYLOAD = {
+    "benign": "description: A `Config` object.",
+    "call_expr": "description: !!python/object/apply:builtins.open [{S}, w]",
+    "dunder_chain": "description: !!python/name:os.system",
+    "import_stmt": "description: !!python/module:verif_sentinel_mod",
+}
+
+
+def build_routes(slot, payload, sentinel):
+    y = YAML_PAYLOAD[payload if slot == "yaml_block" else "benign"].replace("{S}", sentinel)
+    p = {k: v.replace("{S!r}", repr(sentinel)) for k, v in PAYLOAD[payload].items()}
+    desc = p["desc"] if slot == "description" else "The primary key"
+    expr = p["expr"] if slot == "default" else "5"
+    stmt = p["stmt"] if slot == "module_stmt" else "SOMETHING = 1"
+    typ = p["typ"] if slot == "type" else "str"
+    return '''from bottle import Bottle, request, response
+
+rest_api = Bottle(catchall=False, autojson=True)
+{stmt}
+
+
+@rest_api.get('/api/config/:alpha')
+def read(alpha: {typ} = {expr}):
+    """
+    Find one `Config` or error
+
+    ```yml
+    responses:
+      '200':
+        {y}
+        content:
+          application/json:
+            schema:
+              $ref: ```Config```
+      '404':
+        description: A `ServerError` object.
+        content:
+          application/json:
+            schema:
+              $ref: ```ServerError```
+    ```
+
+    :param alpha: {desc}
+    :type alpha: ```str```
+
+    :return: Found `Config` (as a dict) or error dict
+    :rtype: ```dict```
+    """
+    return {{}}
+'''.format(stmt=stmt, typ=typ, expr=expr, y=y, desc=desc)
+
+
+MODEL_SRC = '''from sqlalchemy import Column, Integer, String
+
+Base = object
+
+
+class Config(Base):
+    """
+    The config
+
+    :cvar alpha: the alpha"""
+
+    __tablename__ = "config_tbl"
+
+    alpha = Column(Integer, comment="[PK] the alpha", primary_key=True)
+'''
+
+
 def build_module(slot, payload, sentinel):
     p = {k: v.replace("{S!r}", repr(sentinel)) for k, v in PAYLOAD[payload].items()}
     b = PAYLOAD["benign"]
@@ -108,7 +177,12 @@ def run_case(args):
     os.makedirs(moddir)
     with open(os.path.join(moddir, "verif_sentinel_mod.py"), "w") as f:
         f.write("open({!r}, 'w').close()\n".format(sentinel + "_mod"))
-    src, desc, typ = build_module(slot, payload, sentinel)
+    if api in ("route_parse", "openapi_bulk"):
+        src, desc, typ = build_routes(slot, payload, sentinel), "", ""
+    elif slot == "yaml_block":
+        return {"case": case, "skip": "the yaml slot exists only in route docstrings"}
+    else:
+        src, desc, typ = build_module(slot, payload, sentinel)
     try:
         tree = ast.parse(src)
     except SyntaxError as e:
@@ -119,10 +193,14 @@ def run_case(args):
     out_file = os.path.join(work, "out.py")
     outputs = []
     calls = []
-    fn = next(n for n in tree.body if isinstance(n, ast.FunctionDef) and n.name == "target_fn")
-    cls = next(n for n in tree.body if isinstance(n, ast.ClassDef))
-    argp = next(n for n in tree.body if isinstance(n, ast.FunctionDef) and n.name == "set_cli_args")
     import copy
+    if api in ("route_parse", "openapi_bulk"):
+        fn = next(n for n in tree.body if isinstance(n, ast.FunctionDef) and n.name == "read")
+        cls = argp = None
+    else:
+        fn = next(n for n in tree.body if isinstance(n, ast.FunctionDef) and n.name == "target_fn")
+        cls = next(n for n in tree.body if isinstance(n, ast.ClassDef))
+        argp = next(n for n in tree.body if isinstance(n, ast.FunctionDef) and n.name == "set_cli_args")
     import cdd.__main__ as cli
 
     if api == "parse":
@@ -137,6 +215,17 @@ def run_case(args):
                  lambda: cdd.docstring.parse.docstring(ast.get_docstring(fn)),
                  lambda: cdd.docstring.parse.docstring(ast.get_docstring(fn), infer_type=True),
                  lambda: cdd.class_.parse.class_(copy.deepcopy(cls), merge_inner_function="method")]
+    elif api == "route_parse":
+        import cdd.routes.parse.bottle as rb
+
+        calls = [lambda: rb.bottle(copy.deepcopy(fn))]
+    elif api == "openapi_bulk":
+        from cdd.compound.openapi.gen_openapi import openapi_bulk
+
+        mp = os.path.join(work, "models_mod.py")
+        with open(mp, "w") as f:
+            f.write(MODEL_SRC)
+        calls = [lambda: openapi_bulk(app_name="rest_api", model_paths=[mp], routes_paths=[inp])]
     elif api == "emit":
         import cdd.function.parse
         from harness import real
